@@ -506,6 +506,15 @@ FOOTERS = [b"EST5EDT,M3.2.0,M11.1.0", b"STD5", b"", b"STD5DST,M3.2.0", b"STD5DST
            b"STD-1DST0,J365/25:30,J1/0", b"STD5DST,J1/0,J1/0", b"STD5DST4,0/0,J365/25", b"<+03>-3<+04>,J1/-167,J365/167",
            b"STD5DST,M3.2.0/167,M3.2.0/-167", b"STD24DST-24,0,365", b"AAA0BBB,0/0,0/0", b"STD5\0junk", b"\xff\xfe\xfd5",
            b"STD5DST,M12.5.6/167,M1.1.0/-167", b"X" * 300 + b"5", b"STD5DST,366,1", b"STD5DST,J0,J1"]
+# digit runs at the limits of the footer parser's integer scanner (int accumulation: INT_MAX, INT_MAX+1, +2, one more
+# digit after a wrapped prefix, 2^32 + small), in every numeric position of a rule
+EDGE_NUMS = [b"2147483647", b"2147483648", b"2147483649", b"21474836470", b"21474836485", b"21474836492", b"4294967296",
+             b"4294967301", b"42949672965", b"9999999999", b"18446744073709551621", b"0000000002147483648"]
+for _n in EDGE_NUMS:
+    FOOTERS += [b"XYZ" + _n, b"XYZ-" + _n, b"XYZ5:" + _n, b"XYZ5:30:" + _n, b"EST5EDT" + _n + b",M3.2.0,M11.1.0",
+                b"EST5EDT,M3.2.0/" + _n + b",M11.1.0", b"EST5EDT,M3.2.0,M11.1.0/2:" + _n, b"EST5EDT,M" + _n + b".2.0,M11.1.0",
+                b"EST5EDT,M3." + _n + b".0,M11.1.0", b"EST5EDT,M3.2." + _n + b",M11.1.0", b"EST5EDT,J" + _n + b",M11.1.0",
+                b"EST5EDT," + _n + b",J300"]
 
 
 def header_lengths(data):
@@ -641,6 +650,10 @@ def handcrafted_c12():
     out.append(("hc_v2_notypes_footer", tzif.write_tzif(b"2", [], [], [], b"", b"UTC0", v1_block=False)))
     out.append(("hc_v2_nochars", tzif.write_tzif(b"2", [], [], [(0, 0, 0)], b"", b"", v1_block=False)))
     out.append(("hc_v2_onetype", tzif.write_tzif(b"2", [], [], [(0, 0, 0)], b"\0", b"", v1_block=False)))
+    # one small well-formed file per footer of the list (incl. digit runs at the limits of the footer parser's int scanner)
+    for i, f in enumerate(FOOTERS):
+        if any(n in f for n in EDGE_NUMS):
+            out.append(("hc_ft_%d" % i, tzif.write_tzif(b"2", [100000000], [1], ty, abbr, f, v1_block=False)))
     out.append(("hc_empty", b""))
     out.append(("hc_hdr_only", b"TZif2" + b"\0" * 15 + struct.pack(">6l", 0, 0, 0, 0, 1, 1)))
     return out
